@@ -796,6 +796,22 @@ def check_C10(chk):
             todo.append((k, "check_timed [%s] [%s] [%s]" % ("; ".join(c["model"]), "; ".join(outs), "; ".join(calls))))
     for c, rec, fl, why in fails[:8]:
         chk.failing_input(why, {"build": fl, "sequence": ",".join(c["ops"]), "observed": rec and rec["results"]}, key="%s:%s" % (fl, ",".join(c["ops"])))
+    # a timed receive on a connected, idle channel right after another sender process died at any point of a multi-fragment send
+    # (what that sender left behind is discarded): 'empty' only after the requested time (crash driver, observer timeout_idle)
+    from . import props_conc as PCN
+    shapes = PCN.crash_shapes(4096)
+    ccases, cid = [], itertools.count(1)
+    for npk in (1, 2, 3):
+        for k in range(0, 1 + (1 if npk == 1 else 3 + npk) + 2):
+            ccases.append({"id": next(cid), "len": shapes[npk], "k": k, "survivor": 1, "natt": 0, "nreg": 0, "observe": "timeout_idle", "npk": npk, "S": 4096})
+    for it in PCN.run_crash(bins["default"], 4096, ccases):
+        why = PCN.crash_oracle(it)
+        if why:
+            c0 = it["case"]
+            fails.append((None, None, "default", why))
+            chk.failing_input("timed receive after a sender process was killed before its call %d of a %d-packet send: %s" % (c0["k"], c0["npk"], why),
+                              {"input": c0, "child_progress": it["child"], "observed": it["rec"]}, key="c10crash:npk=%d k=%d" % (c0["npk"], c0["k"]))
+    chk.coverage["timed_receive_after_crash_scenarios"] = len(ccases)
     header = "From Coq Require Import ZArith List Bool.\nFrom IPC Require Import Timed TimedCheck.\nImport ListNotations.\nOpen Scope Z_scope.\n"
     res, errors = C.coq_eval_sharded(header, todo, lambda p: "Eval vm_compute in (%d, %s)." % p, "c10", shard=40)
     bad = [items[i] for i, _ in todo if res.get(i) != "true"]
